@@ -303,6 +303,8 @@ class Interp(Engine):
 
     def subscript(self, base, idx):
         idx = self.force(idx)
+        if isinstance(base, VKeys):
+            base = self.map_common_keys(base.maps)     # clause-level: j-th key in the order the code iterates over the view
         if isinstance(base, VObj) and isinstance(base.cls, MapCls):
             return self.map_get(base, idx)
         if isinstance(base, VMap):
@@ -539,6 +541,8 @@ class Interp(Engine):
 
     def iter_values(self, it):
         it = self.force(it)
+        if isinstance(it, VKeys):
+            raise ValueError("key view of a symbolic map")
         if isinstance(it, VRange):
             s, e, st = conc_int(it.start), conc_int(it.stop), conc_int(it.step)
             if s is None or e is None or st is None:
@@ -593,6 +597,8 @@ class Interp(Engine):
     def sym_iter(self, it):
         """(count term, getter(index term) -> V) for a symbolic iterable."""
         it = self.force(it)
+        if isinstance(it, VKeys):
+            it = self.map_common_keys(it.maps)
         if isinstance(it, VRange):
             st = conc_int(it.step)
             if st is None or st == 0:
@@ -1355,6 +1361,8 @@ class Interp(Engine):
                 if len(args) > 1:
                     return self.ite(got.is_none, args[1], got.val) if isinstance(got, VOpt) else got
                 return got
+            if m == "keys":
+                return VKeys([selfv])
             items = self.map_items(selfv)
             if m == "items":
                 return items
@@ -1451,10 +1459,9 @@ class Interp(Engine):
                 if key.startswith("after:") and first.startswith(key[6:].strip()):
                     steps = []
                     for i, cl in enumerate(clauses):
-                        focus = None
-                        if i > 0:
-                            from . import smt as _smt
-                            focus = [f for f in self.pc if not _smt._contains_quantifier(f)] + steps
+                        from . import smt as _smt
+                        # focused attempt: quantifier-free facts + the most recent assumptions (e.g. the postcondition of the call just made)
+                        focus = [f for f in self.pc if not _smt._contains_quantifier(f)] + [f for f in self.pc[-8:] if _smt._contains_quantifier(f)] + steps
                         n0 = len(self.pc)
                         self.prove(self.eval_clause(cl), "hint", "%s[%d]" % (key, i), node.lineno, assume_after=True, try_hyps=focus)
                         steps.extend(self.pc[n0:])
